@@ -68,10 +68,13 @@ def zlib_compress(I, data, *a):
 
 
 class GhostDecompressor(object):
+    calls = 0                      # ghost counter (reset by the units that use it)
+
     def __init__(self, I):
         self.I = I
 
     def decompress(self, data):
+        GhostDecompressor.calls += 1
         data = SBytes.of(data)
         if len(data.atoms) == 1 and isinstance(data.atoms[0], Blob) and data.atoms[0].key[0] == 'zlib':
             return data.atoms[0].decoded
@@ -90,6 +93,9 @@ def install_io_models(I, readable=True):
     I.override(select.select, sel, kind='assumed')
 
 
+LAST_FRAME = {}
+
+
 def spec_frame(I, payload_atoms, thr, enabled, any_writer=False):
     """frame(payload, thr) as typed atoms; returns (frame atoms, body atoms).
     any_writer: the frame of ANY protocol-conforming peer - with compression enabled a peer may send the payload
@@ -102,9 +108,11 @@ def spec_frame(I, payload_atoms, thr, enabled, any_writer=False):
     else:
         comp = I.E.new_bool('peer-compresses') if any_writer else And(L > thr, thr != -1)
         if I.truth(comp):
+            LAST_FRAME['compressed'] = True
             z = zlib_compress(I, payload)
             body = [make_atom(I, 'VarInt', L)] + z.atoms
         else:
+            LAST_FRAME['compressed'] = False
             body = [make_atom(I, 'VarInt', 0)] + list(payload.atoms)
     blen = SBytes(body).length()
     return [make_atom(I, 'VarInt', blen)] + body, body
@@ -268,9 +276,10 @@ class ReadFrame(Unit):
             fields = E.new_blob('fields%d' % j, hi=(1 << 21) - 8)
             thr = E.new_int('thr%d' % j, -(1 << 40), 1 << 40)
             payload = [make_atom(I, 'VarInt', pid), fields]
+            LAST_FRAME['compressed'] = False
             frame, body = spec_frame(I, payload, thr, self.enabled, any_writer=True)
             out += frame
-            metas.append((pid, fields))
+            metas.append((pid, fields, LAST_FRAME['compressed']))
         return out, metas
 
     def run(self, I):
@@ -282,12 +291,22 @@ class ReadFrame(Unit):
         st = InStream(I, SBytes(atoms + [nxt]))
         # the reader's own threshold setting is arbitrary: decoding must not depend on it
         reactor = make_reactor(self.enabled, threshold=E.new_int('reader-threshold'))
-        for j, (pid, fields) in enumerate(metas):
+        for j, (pid, fields, compressed) in enumerate(metas):
+            GhostDecompressor.calls = 0
+            note = 'the peer sent frame %d %s; the reader inflates exactly the frames whose data-length field is non-zero, ' \
+                   'whatever its own threshold' % (j, 'compressed' if compressed else 'uncompressed')
             try:
                 pkt = I.call(raw(PacketReactor, 'read_packet'), reactor, st, 0)
             except PyRaise as e:
                 E.check('read.no-raise', False, note='raised %r on a well-formed frame' % (e.exc,))
                 return None
+            except Unsupported:
+                if (GhostDecompressor.calls == 1) != compressed:
+                    # the reader went on to parse compressed bytes as a packet (or inflated plain ones)
+                    E.check('read.inflates-iff-compressed', False, note=note)
+                    return None
+                raise
+            E.check('read.inflates-iff-compressed', (GhostDecompressor.calls == 1) == compressed, note=note)
             known = I.truth(pid == 7)
             if known:
                 E.check('read.known-class', type(pkt) is Probe)
@@ -498,11 +517,18 @@ class Segmentation(Unit):
         install_io_models(I)
         keys = loop_keys(raw(PacketReactor, 'read_packet'), R_)
         if not keys:
-            raise RuntimeError('read_packet has no while loop any more')
+            raise Unsupported('contract does not fit the code any more: read_packet has no while loop any more')
         unit = self
 
+        def the_buffer(frame):
+            # the frame's PacketBuffer, whatever the local is called
+            bufs = [v for v in frame.locals.values() if isinstance(v, PacketBuffer)]
+            if len({id(b) for b in bufs}) != 1:
+                raise Unsupported('reassembly contract: expected exactly one PacketBuffer local at the loop head, found %d' % len(bufs))
+            return bufs[0]
+
         def inv(I_, frame):
-            pd = frame.locals['packet_data']
+            pd = the_buffer(frame)
             content = I_.call(I_.getattr_(pd, 'get_writable'))
             s = unit.stream
             return And(SBytes.of(content) == SBytes([slice_blob(s.rest, 0, s.cursor)]) if not _is_zero(s.cursor) else
@@ -516,7 +542,7 @@ class Segmentation(Unit):
             E = I_.E
             c = E.new_int('c@head', 0, None)
             unit.stream.cursor = c
-            pd = frame.locals['packet_data']
+            pd = the_buffer(frame)
             pd.__dict__['bytes'] = SymBytesIO(I_, SBytes([slice_blob(unit.stream.rest, 0, c)]))
         I.loop_specs[keys[0]] = LoopSpec('reassembly', inv, havoc, variant)
 
